@@ -186,7 +186,7 @@ def run(ctx):
             key = 'R-COUNTER WaitRange registration'
             ctx.instance(rc, key + ' :: ' + f.full[:140], None)
             subs = [c for c in f.calls() if c['cn'].endswith('::SubEqual')]
-            ok = any('count - wait_count + 1' in f.text(c['args'][0]).replace('(', '').replace(')', '') or
+            ok = any('count - wait_count + 1' in f.xtext(c['args'][0]).replace('(', '').replace(')', '') or
                      (f.sn(c['args'][0])['k'] == 'BinaryOperator' and f.sn(c['args'][0])['op'] == '+' and
                       f.sn(f.sn(c['args'][0])['ch'][1]).get('v') == 1 and 'wait_count' in f.text(c['args'][0]))
                      for c in subs)
@@ -266,6 +266,19 @@ def run(ctx):
                     ctx.broken('MutexEvent::Wait: cv wait not found')
                 for wn in waits:
                     pos = cfgf.pos_of(wn['i'])
+                    if len(wn.get('args', [])) == 2:
+                        # predicate form cv.wait(lock, pred): the library loop re-tests pred after every wake-up
+                        reads = False
+                        for d in f.descendants(wn['args'][1]):
+                            m = f.nodes[d]
+                            for key2 in [m.get('lam')] + list(m.get('lams', [])) if m['k'] == 'LambdaExpr' else []:
+                                g = fb.fn.get(key2)
+                                if g is not None and any(x['k'] == 'MemberExpr' and x.get('mn') == '_is_ready'
+                                                         for x in g.own_nodes()):
+                                    reads = True
+                        if not reads:
+                            ctx.report(re_, key, f.loc(wn), 'the predicate of the wait does not read _is_ready')
+                        continue
 
                     def is_test(b, i, e):
                         return False
